@@ -37,6 +37,15 @@ def make_work(rng, fam, W):
         return {f'l{i}': {'A': rng.choice([1, 2]), 'G': rng.choice([1, 2])} for i in range(L)}
     if fam == 'zeros':
         return {f'l{i}': {'A': rng.choice([0, 0, 1]), 'G': 0} for i in range(L)}
+    if fam == 'near_ties':
+        # n**3-sized integer costs differing by far less than single precision resolves (see C12)
+        X = rng.choice([511, 1025, 4097, 8193]) ** 3 + rng.randrange(1000)
+        n_big = min(max(2, W), 12)
+        deltas = sorted(rng.sample(range(1, 40000), n_big), reverse=True)
+        out = {f'big{i}': {'A': X + d, 'G': rng.choice([0, 7])} for i, d in enumerate(deltas)}
+        for j in range(rng.randint(1, 4)):
+            out[f'small{j}'] = {'A': rng.choice([129, 257, 1025]) ** 3, 'G': rng.choice([64, 129]) ** 3}
+        return out
     if fam == 'geometric':
         return {f'l{i}': {'A': 2.0 ** (i % 30), 'G': 3.0 ** (i % 19)} for i in range(L)}
     return {f'm.{i}': {'A': rng.random() * 100, 'G': rng.random()} for i in range(L)}
@@ -161,7 +170,7 @@ def check_preconditioner(W, k, rng, res):
         kp.get_world_size, kp.get_rank = old
 
 
-FAMS = ['uniform', 'ties', 'zeros', 'geometric', 'random']
+FAMS = ['uniform', 'ties', 'zeros', 'geometric', 'random', 'near_ties']
 
 
 def worlds(tier):
